@@ -737,6 +737,12 @@ def c09_scenarios(rng=None):
     S["300K-over-older"] = dict(src={"big": (k300, new)}, dst={"big": (k300[::-1], old), "bystander": (b"keep me", old)}, delete=False)
     S["700K-new-nested"] = dict(src={"d/e/big7": (k700, new)}, dst={"bystander": (b"keep me", old)}, delete=False)
     S["four-files-delete"] = dict(src={"a": (b"A" * 5000, new), "b/c": (k300, new), "z": (b"", new), "same": (b"same", old)}, dst={"a": (b"old-a", old), "stale": (b"stale", old), "same": (b"same", old), "b/c": (b"old-c", old)}, delete=True)
+    # torn-list detector (push --delete): the delete list is far longer than a pipe buffer page, and every
+    # proper prefix of a stale name (beyond the directory) names an in-sync file, so a list cut anywhere
+    # inside a name makes the orphaned remote `rm` hit a file outside the plan
+    keep = {"L/" + "x" * n: (b"k%d" % n, old) for n in range(1, 41)}
+    stale = {"L/" + "x" * n: (b"s", old) for n in range(41, 131)}
+    S["long-delete-list-prefix-names"] = dict(src=dict(keep, **{"new": (b"n", new)}), dst=dict(keep, **stale), delete=True)
     S["700K-over-older-delete"] = dict(src={"big7": (k700, new), "k": (b"k", new)}, dst={"big7": (k700[:1000], old), "stale/x": (b"s", old)}, delete=True)
     return S
 
